@@ -2,10 +2,11 @@
    oracles of this property rest on, regenerated from /repo on every run, equal the reviewed ones:
      - group wiring (which output feeds which input, as OpenMDAO resolves it) of the canonical models of: AeroPoint, MPhys
      - unit contract (declared units of every input / output) of the classes in: -
-   An edit that re-wires a group or drops / changes a unit in these areas breaks the obligation; the oracles of the property
-   then look for the failing input. *)
+     - option defaults of the classes in: mphys, aerodynamics
+   An edit that re-wires a group, drops / changes a unit or changes a default in these areas breaks the obligation; the oracles of
+   the property then look for the failing input. *)
 From Coq Require Import String List Bool.
-From OAS Require Import Wiring WiringReviewed IOUnits IOUnitsReviewed Tie_wiring_AeroPoint Tie_wiring_MPhys.
+From OAS Require Import Wiring WiringReviewed IOUnits IOUnitsReviewed OptionDefaults OptionDefaultsReviewed Tie_wiring_AeroPoint Tie_wiring_MPhys Tie_options_mphys Tie_options_aerodynamics.
 Import ListNotations.
 
 Theorem C19_wiring_of_AeroPoint_models_is_the_reviewed_one :
@@ -17,3 +18,13 @@ Theorem C19_wiring_of_MPhys_models_is_the_reviewed_one :
   wiring_family_MPhys gen_wiring = wiring_family_MPhys reviewed_wiring /\ wiring_family_MPhys reviewed_wiring <> [].
 Proof. split; [exact wiring_MPhys_reviewed | exact wiring_MPhys_nonempty]. Qed.
 Print Assumptions C19_wiring_of_MPhys_models_is_the_reviewed_one.
+
+Theorem C19_option_defaults_of_mphys_are_the_reviewed_ones :
+  options_dir_mphys gen_option_defaults = options_dir_mphys reviewed_option_defaults /\ options_dir_mphys reviewed_option_defaults <> [].
+Proof. split; [exact options_mphys_reviewed | exact options_mphys_nonempty]. Qed.
+Print Assumptions C19_option_defaults_of_mphys_are_the_reviewed_ones.
+
+Theorem C19_option_defaults_of_aerodynamics_are_the_reviewed_ones :
+  options_dir_aerodynamics gen_option_defaults = options_dir_aerodynamics reviewed_option_defaults /\ options_dir_aerodynamics reviewed_option_defaults <> [].
+Proof. split; [exact options_aerodynamics_reviewed | exact options_aerodynamics_nonempty]. Qed.
+Print Assumptions C19_option_defaults_of_aerodynamics_are_the_reviewed_ones.
